@@ -270,6 +270,29 @@ NFEnv(arr, S) ==
       types |-> FoldLeft(LAMBDA acc, x : (x :> def(x)) @@ acc, ProbeName :> def(q), SetToSeq(rec))]
 
 ------------------------------------------------------------------------------
+(* X.693 (XER): the element that carries an item of a SEQUENCE OF / SET OF is *)
+(* named after the item type as written -- its type reference, else the       *)
+(* built-in type.  XerNames(arr): those names over the unfolded probe type.   *)
+
+RECURSIVE ElemNames(_, _, _, _)
+ElemNames(G, T, ctx, fuel) ==
+  CASE T.k = "REF" -> ElemNames(G, G.types[T.name], CtxOf(G, T.name), fuel)
+    [] T.k \in {"SEQ", "SET"} ->
+         IF fuel = 0 THEN <<>>
+         ELSE LET root == ExpandRoot(G, T, ctx, {}, {})
+                  ms == [i \in 1..Len(root) |-> root[i].m] \o AddMembers(T.adds)
+              IN Concat([i \in 1..Len(ms) |-> ElemNames(G, ms[i].t, ctx, fuel - 1)])
+    [] T.k = "CHOICE" ->
+         IF fuel = 0 THEN <<>>
+         ELSE Concat([i \in 1..Len(AllAlts(T)) |-> ElemNames(G, AllAlts(T)[i].t, ctx, fuel - 1)])
+    [] T.k \in {"SEQOF", "SETOF"} ->
+         IF fuel = 0 THEN <<>>
+         ELSE << IF T.e.k = "REF" THEN G.loc[T.e.name] ELSE "" >> \o ElemNames(G, T.e, ctx, fuel - 1)
+    [] OTHER -> <<>>
+
+XerNames(arr) == LET G == GEnv(arr)  q == ProbeQ(arr) IN ElemNames(G, G.types[q], CtxOf(G, q), CutDepth)
+
+------------------------------------------------------------------------------
 (* input classes of known findings (predicates over arrangements / values)  *)
 
 RECURSIVE HasCompOfBelow(_, _)
